@@ -88,3 +88,68 @@ fn c19_register_piece() {
     kani::cover!(true, "BSV-END");
     std::mem::forget(got);
 }
+
+//@ harness: c19_register_piece_offsets
+//@ property: C19
+//@ obligation: H-C19-b
+//@ tier: thorough
+//@ encodes: eval::read_register, DwarfRegisterMap::{from(RegisterMap), value}, RegisterMap::{current, from(user_regs_struct)}
+//@ symbolic: the 17 general registers rax..r15 and rip, the DWARF register number 0..16, piece size 1..8 bytes, any bit offset 0..63
+//@ bounds: frame 0 (registers of the selected frame = current registers); unwind 160 (SmallVec construction of the DWARF map)
+//@ oracle: psABI figure 3.36: 0 rax, 1 rdx, 2 rcx, 3 rbx, 4 rsi, 5 rdi, 6 rbp, 7 rsp, 8-15 r8-r15, 16 return address (rip); the piece is the low `size` bytes of (that register >> offset)
+//@ stubs: ptrace::getregs -> static register file; Debugee::restore_registers_at_frame -> identity (frame 0); Backtrace::capture
+//@ outside: register restoration for outer frames (CFI), location lists, which DIE a name resolves to
+//@ timeout: 1800
+#[kani::proof]
+#[kani::stub(nix::sys::ptrace::getregs, stub_getregs)]
+#[kani::stub(Debugee::restore_registers_at_frame, stub_restore)]
+#[kani::stub(std::backtrace::Backtrace::capture, no_backtrace)]
+#[kani::unwind(160)]
+fn c19_register_piece_offsets() {
+    let mut r: user_regs_struct = unsafe { std::mem::zeroed() };
+    let g: [u64; 17] = kani::any();
+    r.rax = g[0];
+    r.rdx = g[1];
+    r.rcx = g[2];
+    r.rbx = g[3];
+    r.rsi = g[4];
+    r.rdi = g[5];
+    r.rbp = g[6];
+    r.rsp = g[7];
+    r.r8 = g[8];
+    r.r9 = g[9];
+    r.r10 = g[10];
+    r.r11 = g[11];
+    r.r12 = g[12];
+    r.r13 = g[13];
+    r.r14 = g[14];
+    r.r15 = g[15];
+    r.rip = g[16];
+    unsafe { REGS = Some(r) };
+    let n: u16 = kani::any();
+    kani::assume(n <= 16);
+    let size: usize = kani::any();
+    kani::assume(size >= 1 && size <= 8);
+    let off: u64 = kani::any();
+    kani::assume(off < 64);
+    let fake = MaybeUninit::<Debugee>::uninit();
+    let debugee: &Debugee = unsafe { &*fake.as_ptr() };
+    let ecx = ExplorationContext::new_non_running(Pid::from_raw(7));
+    let got = read_register(debugee, &ecx, Register(n), size, off);
+    bsv!(got.is_ok(), "a general register can be read");
+    if let Ok(bytes) = &got {
+        bsv!(bytes.len() == size, "the piece has the requested size");
+        let want = (g[n as usize] >> off).to_ne_bytes();
+        let mut i = 0;
+        while i < 8 {
+            if i < size {
+                bsv!(bytes[i] == want[i], "the piece holds the bytes of the right machine register");
+            }
+            i += 1;
+        }
+    }
+    kani::cover!(n == 5 && size == 4, "rdi, 4 bytes");
+    kani::cover!(n == 1 && off == 63, "top bit of rdx");
+    kani::cover!(true, "BSV-END");
+    std::mem::forget(got);
+}
